@@ -97,23 +97,23 @@ func (w *world) exps(k int, rng *mrand.Rand) map[int]*gobig.Int {
 	m := map[int]*gobig.Int{
 		2: gobig.NewInt(2), 3: gobig.NewInt(3), 5: gobig.NewInt(65537), 7: nextPrime(randBits(rng, 17).SetBit(randBits(rng, 17), 16, 1), 1),
 		11: nextPrime(pow2(P.Le-40), 1),
-		13: nextPrime(new(gobig.Int).Sub(lo, one), -1),               // largest prime below the interval
-		14: composite(new(gobig.Int).Sub(lo, gobig.NewInt(2)), -1),   // composite just below
+		13: nextPrime(new(gobig.Int).Sub(lo, one), -1),             // largest prime below the interval
+		14: composite(new(gobig.Int).Sub(lo, gobig.NewInt(2)), -1), // composite just below
 		15: composite(new(gobig.Int).Sub(lo, one), -1),
-		16: lo,                                                        // lower end itself (even)
-		17: nextPrime(new(gobig.Int).Set(lo), 1),                      // smallest prime inside
+		16: lo,                                   // lower end itself (even)
+		17: nextPrime(new(gobig.Int).Set(lo), 1), // smallest prime inside
 		18: composite(new(gobig.Int).Add(lo, gobig.NewInt(2)), 1),
-		19: nextPrime(new(gobig.Int).Or(mid, one), 2),                 // prime in the middle
+		19: nextPrime(new(gobig.Int).Or(mid, one), 2), // prime in the middle
 		20: composite(new(gobig.Int).Set(mid), 1),
-		21: odd,                                                       // odd composite inside
+		21: odd, // odd composite inside
 		22: composite(new(gobig.Int).Sub(hi, gobig.NewInt(2)), -1),
-		23: nextPrime(new(gobig.Int).Set(hi), -1),                     // largest prime inside
-		24: hi,                                                        // upper end itself (even)
+		23: nextPrime(new(gobig.Int).Set(hi), -1), // largest prime inside
+		24: hi,                                    // upper end itself (even)
 		25: composite(new(gobig.Int).Add(hi, one), 1),
 		26: composite(new(gobig.Int).Add(hi, gobig.NewInt(2)), 1),
 		27: composite(new(gobig.Int).Add(hi, gobig.NewInt(3)), 1),
 		28: composite(new(gobig.Int).Add(hi, gobig.NewInt(4)), 1),
-		29: nextPrime(new(gobig.Int).Add(hi, one), 1),                 // smallest prime above the interval
+		29: nextPrime(new(gobig.Int).Add(hi, one), 1), // smallest prime above the interval
 		31: nextPrime(pow2(P.Le+5), 1),
 	}
 	for a, e := range m {
